@@ -288,7 +288,7 @@ def parse_blocks(text: str, n: int) -> List[Optional[Tuple[Block, List[str]]]]:
 
 
 def _run_one(cmd: List[str], items: List[str], workdir: str, tag: str, timeout: float, mem_kb: Optional[int],
-             model: bool) -> List[Optional[Tuple[Block, List[str]]]]:
+             model: bool, extra_env: Optional[dict] = None) -> List[Optional[Tuple[Block, List[str]]]]:
     """Run cmd on a list file holding `items`; restart after a lost block (abort, timeout)."""
     out: List[Optional[Tuple[Block, List[str]]]] = [None] * len(items)
     start = 0
@@ -303,7 +303,8 @@ def _run_one(cmd: List[str], items: List[str], workdir: str, tag: str, timeout: 
             pre += "ulimit -v %d; " % mem_kb
         sh = pre + "exec " + " ".join(cmd + [lf])
         try:
-            r = subprocess.run(["bash", "-c", sh], stdout=subprocess.PIPE, stderr=subprocess.PIPE, env=ENV,
+            env = ENV if not extra_env else dict(ENV, **extra_env)
+            r = subprocess.run(["bash", "-c", sh], stdout=subprocess.PIPE, stderr=subprocess.PIPE, env=env,
                                timeout=timeout)
             text = r.stdout.decode("utf-8", "replace")
             status = "exit %d" % r.returncode
@@ -326,7 +327,7 @@ def _run_one(cmd: List[str], items: List[str], workdir: str, tag: str, timeout: 
 
 
 def run_sharded(cmd: List[str], items: List[str], workdir: str, tag: str, shards: int = NCPU,
-                timeout: float = 900, mem_kb: Optional[int] = None, model: bool = False):
+                timeout: float = 900, mem_kb: Optional[int] = None, model: bool = False, extra_env: Optional[dict] = None):
     if not items:
         return []
     shards = max(1, min(shards, len(items)))
@@ -337,7 +338,7 @@ def run_sharded(cmd: List[str], items: List[str], workdir: str, tag: str, shards
 
     def work(k):
         idx = parts[k]
-        r = _run_one(cmd, [items[i] for i in idx], workdir, "%s_s%d" % (tag, k), timeout, mem_kb, model)
+        r = _run_one(cmd, [items[i] for i in idx], workdir, "%s_s%d" % (tag, k), timeout, mem_kb, model, extra_env)
         for i, b in zip(idx, r):
             results[i] = b
     with ThreadPoolExecutor(max_workers=shards) as ex:
@@ -346,13 +347,16 @@ def run_sharded(cmd: List[str], items: List[str], workdir: str, tag: str, shards
 
 
 def impl_observe(profile: str, paths: List[str], workdir: str, level: int, max_frames=None, max_layers=None,
-                 timeout: float = 900, mem_kb: Optional[int] = 4000000, tag="impl"):
+                 timeout: float = 900, mem_kb: Optional[int] = 4000000, tag="impl", fresh_threads: bool = False, shards: int = NCPU):
+    """By default the inputs of one shard are loaded and observed one after the other on ONE thread of the driver (state
+    kept between loads shows up); fresh_threads=True gives every input a thread of its own (the isolated reference)."""
     cmd = [impl_driver(profile), "observe", "--level", str(level)]
     if max_frames is not None:
         cmd += ["--max-frames", str(max_frames)]
     if max_layers is not None:
         cmd += ["--max-layers", str(max_layers)]
-    return run_sharded(cmd, paths, workdir, tag + "_" + profile, timeout=timeout, mem_kb=mem_kb)
+    return run_sharded(cmd, paths, workdir, tag + "_" + profile, timeout=timeout, mem_kb=mem_kb, shards=shards,
+                       extra_env={"VERIF_FRESH_THREADS": "1"} if fresh_threads else None)
 
 
 def model_observe(paths: List[str], workdir: str, level: int, max_frames=None, max_layers=None,
